@@ -51,6 +51,11 @@ out += ["", "Changes that were missed at first and what was strengthened:", "",
         "  `C06_r2m2` (transient verdict of all but the last channel discarded) - new `onset` signal (a noise burst out of digital silence in one channel) with a pre-echo clause (-45 dB 700-1700 samples ahead; 0 on the unchanged tree);",
         "  `C05_r2m2` (wrong length from `vorbis_analysis(vb,&op)`) - every third unmanaged encode is repeated through the direct packet interface and must be byte-identical;",
         "  `C08_r2m2` (a forward-hop fast path that is wrong only at half rate) leaves `ov_pcm_tell` exact, so C08 (position) is silent by construction; C20 (half-rate audio vs reference) reports it.",
+        "  `C11_r2m1` (running count kept across a sequence gap while the position is unknown) fell exactly under a known-finding key; that key now names the disturbance class (accepted corruption vs sequence gap), so the same symptom after a duplicate/drop is a new violation;",
+        "  `C12_r2m1` (failed re-read inside the backward page search returns a zeroed page) - needed a page holding nothing but the tail of a continued packet, which libogg's paging never produced in thousands of streams: C12 now has a fourth stream kind built page by page by the harness (`mux_tailpages`);",
+        "  `C13_r2m1` / `C13_r2m2` (double free on a repeated foreign BOS serial; leak when headerout is called again) - foreign-BOS damage (once, twice) and repeated headerout added to the C13 scenarios;",
+        "  `C15_r2m2` (psy curve index one past the end for input hotter than full scale) - over-range and alternating +-1 input added to the post-set-up encode; `C16_r2m1` / `C16_r2m2` (case folding off by one at '{'; struct's vendor copied) - tags built from the characters adjacent to the letter ranges, and a foreign vendor in the source structure with the library's own string as reference;",
+        "  `C18_r2m2` (pcm buffers malloc'd instead of calloc'd, visible only for streams of <= 32 samples) - pipeline of encodes shorter than one block; `C19_r2m1` / `C19_r2m2` (crosslap with differing half-rate settings; lapout flag not reset per block) - independent half-rate per handle in the crosslap pairs and lapped seeks inside the histories; `C20_r2m2` (flag used as a shift count) - enabling with non-zero values other than 1.",
         "<!-- AUTOGEN-END -->"]
 p = os.path.join(V, 'DESIGN.md')
 s = open(p).read()
